@@ -473,7 +473,7 @@ impl World for SpWorld {
         let forced = std::env::var("VERIF_SP_KIND").ok();
         let kind = if let Some(k) = forced.as_deref() {
             k
-        } else if h % 12 == 3 {
+        } else if h % 10 == 3 {
             *rng.pick(&["full", "wrapped", "wrapped", "nearfull", "wrapped"])
         } else if rng.chance(1, 2) {
             "small"
@@ -551,7 +551,11 @@ impl World for SpWorld {
             3,  // 8 updPrice / updPos
             45, // 9 views
         ];
-        let k = rng.weighted(&weights);
+        let mut k = rng.weighted(&weights);
+        if k == 9 && self.obs_rounds.len() < 2 && rng.chance(3, 4) {
+            // hardly anything to ask yet: make history instead
+            k = *rng.pick(&[0usize, 1, 4, 4]);
+        }
         let d = if rng.chance(1, 2) { "ab" } else { "ba" };
         let (rin, rout) = if d == "ab" { (s.r1.clone(), s.r2.clone()) } else { (s.r2.clone(), s.r1.clone()) };
         match k {
@@ -1125,7 +1129,9 @@ impl SpWorld {
         let at = |i: usize| self.obs_rounds[i.min(n - 1)];
         let oldest = at(0);
         let newest = at(n - 1);
-        match rng.below(26) {
+        let wrapped = self.snap.len == CAP && self.snap.cur < CAP;
+        let roll = if wrapped && rng.chance(1, 4) { 16 } else { rng.below(26) };
+        match roll {
             0 => oldest,
             1 => oldest.saturating_sub(1),
             2 => at(1),
@@ -1172,7 +1178,10 @@ impl SpWorld {
             match rng.below(30) {
                 0 => (a, a),                       // empty window
                 1 => (a.max(b), a.min(b)),         // reversed (or empty)
-                _ => (a.min(b), a.max(b)),
+                _ => {
+                    let (lo, hi) = (a.min(b), a.max(b));
+                    if lo == hi && lo < now { (lo, now) } else { (lo, hi) }
+                }
             }
         };
         let off = |rng: &mut Rng, me: &Self| -> u64 {
